@@ -46,6 +46,8 @@ func (fi *FnInfo) reachable(b, c *ssa.BasicBlock) bool {
 
 // Fact is a normalised predicate that holds whenever control reaches the queried point.
 type Fact struct {
+	dCond *ssa.BinOp      // for facts derived from a boolean helper: the helper's comparison (operator already adjusted)
+	dAt   ssa.Instruction // and the instruction of the helper at which its operands are evaluated
 	Expr  string
 	If    *ssa.If
 	loads []*ssa.UnOp // memory reads the predicate depends on
@@ -179,7 +181,13 @@ func edgeDominates(b, s, a *ssa.BasicBlock) bool {
 // factsAt returns the facts established by dominating branches at the given instruction.
 // Facts whose memory dependencies may have been overwritten between the branch and the
 // instruction are dropped (must-analysis: dropping is the safe direction).
-func (w *World) factsAt(at ssa.Instruction) []Fact {
+func (w *World) factsAt(at ssa.Instruction) []Fact { return w.factsAtK(at, true) }
+
+// testedBefore: branch outcomes that dominate the instruction, whether or not the tested location
+// was modified afterwards ("the test was performed on this path").
+func (w *World) testedBefore(at ssa.Instruction) []Fact { return w.factsAtK(at, false) }
+
+func (w *World) factsAtK(at ssa.Instruction, kill bool) []Fact {
 	blk := at.Block()
 	fn := blk.Parent()
 	var out []Fact
@@ -210,7 +218,7 @@ func (w *World) factsAt(at ssa.Instruction) []Fact {
 			condFacts(ifi.Cond, false, ifi, &fs)
 		}
 		for _, f := range fs {
-			if w.factSurvives(f, at) {
+			if !kill || w.factSurvives(f, at) {
 				out = append(out, f)
 			}
 		}
